@@ -607,6 +607,12 @@ var c13Owners = []string{"table", "col:0", "col:1", "col:2", "row:0", "row:1", "
 
 // c13Run executes one scenario.  regSpecs: (owner idx, when, target, step position).
 func c13Run(x *X, c *Chooser, shape c13Shape, nregs int, passes int, endsOnly bool) {
+	c13RunMode(x, c, shape, nregs, passes, endsOnly, "")
+}
+
+// mode "refusal": three registrations made at the same point - any supported one, then an UNSUPPORTED one (it must be
+// refused), then a supported one on the refused registration's owner.
+func c13RunMode(x *X, c *Chooser, shape c13Shape, nregs int, passes int, endsOnly bool, mode string) {
 	w := &c13World{x: x, c: c, t: tabular.New(), hdr: shape.hdr}
 	// atomic steps
 	type step struct {
@@ -639,11 +645,23 @@ func c13Run(x *X, c *Chooser, shape c13Shape, nregs int, passes int, endsOnly bo
 	type spec struct{ owner, when, target, at int }
 	specs := make([]spec, nregs)
 	for i := range specs {
+		if mode == "refusal" {
+			continue
+		}
 		specs[i] = spec{owner: c.Choose(len(c13Owners)), when: c.Choose(4), target: c.Choose(3)}
 		if endsOnly {
 			specs[i].at = []int{0, len(steps)}[c.Choose(2)]
 		} else {
 			specs[i].at = c.Choose(len(steps) + 1)
+		}
+	}
+	if mode == "refusal" {
+		at := []int{0, len(steps)}[c.Choose(2)]
+		specs[0] = spec{owner: c.Choose(len(c13Owners)), when: c.Choose(4), target: c.Choose(3), at: at}
+		specs[1] = spec{owner: c.Choose(len(c13Owners)), when: specs[0].when, target: 2, at: at}
+		specs[2] = spec{owner: specs[1].owner, when: c.Choose(4), target: c.Choose(2), at: at}
+		if !c13Supported(c13Owners[specs[0].owner], specs[0].target) || c13Supported(c13Owners[specs[1].owner], 2) {
+			return
 		}
 	}
 	c.Logf("shape %s", shape)
@@ -818,6 +836,14 @@ func runC13(x *X) {
 		}
 		x.State(fmt.Sprint("many", n, slot))
 		x.Nontrivial(fmt.Sprint(n, slot))
+	})
+	x.Explore("column-handle-across-growth", ExploreOpts{ShardDepth: 3, Bound: "tables of 1/2/5/9 columns x handle of column 1 | the last column x growth to w+1/10/11/17/33 columns by AddRowItems | AddHeaders | Add on the attached row x column {PRECELL, POSTCELL} x {ITSELF, CELL} registered through the old handle before | after the growth x 1-2 passes"}, func(c *Chooser) {
+		c13ColumnGrowth(x, c)
+	})
+	refShapes := []c13Shape{{2, []int{2, 2}}, {1, []int{1}}, {-1, []int{2, 1}}, {2, []int{2, -1}}}
+	x.Explore("refusal-then-valid", ExploreOpts{ShardDepth: 3, Bound: fmt.Sprintf("%d shapes x (any supported registration ; an unsupported one on a column or cell ; a supported one on that owner) all made at the start | after all steps x 1 pass", len(refShapes))}, func(c *Chooser) {
+		shape := refShapes[c.Choose(len(refShapes))]
+		c13RunMode(x, c, shape, 3, 1, true, "refusal")
 	})
 	pairShapes := []c13Shape{{1, []int{1}}, {2, []int{2, -1}}, {-1, []int{2, 1}}, {1, []int{0, 2}}, {2, []int{2, 2}}, {-1, []int{1}}, {1, []int{-1, 1}}, {2, nil}, {1, []int{2}}, {-1, []int{-1, 2}}, {2, []int{1, 0}}, {1, []int{1, 1}}}
 	if x.Thorough() {
